@@ -47,7 +47,7 @@ ASSUMPTIONS = suite.ENGINE_ASSUMPTIONS + [
     "restart = a fresh stack over the same store in the same interpreter (harness/server/stack.py crash()); the OS process boundary itself is not exercised",
     "the memory workflow store is used for the generated streams (sqlite only in the witness replays); the store's own durability is C21/C24",
     "datetime.now of idle_release_runtime / server_runtime and time.time of the engine are the virtual clock; correspondence streams use integral seconds",
-    "the partial theorem assumes a retry policy whose decision ignores elapsed time (the replay runs at the clock of the reload) and ticks whose persisted form is the tick itself (AddWaiter.requirements are never persisted; observed on the stack and modelled by Tick.persist)",
+    "the partial theorem assumes a retry policy whose decision ignores elapsed time (the replay runs at the clock of the reload) and ticks whose persisted form is the tick itself (AddWaiter.requirements are never persisted; observed on the stack and modelled by Tick.stored)",
     "the DBOS runtime's idle release (TickIdleRelease) is not covered; only the in-process IdleReleaseDecorator",
 ]
 TRUSTED_EXTRA = ["harness/server/stack.py + harness/server/timers.py (wiring of the real server decorators without starlette/uvicorn, observers on IdleReleaseDecorator._abort_inner_run/_release_idle_handler, _ServerInternalRunAdapter.write_to_event_stream, _ControlLoopRunner.__init__)"]
